@@ -1967,7 +1967,7 @@ fn mine_chunk(rng: &mut Rng, events: usize, out: &mut dyn Write) {
     // the common classes fill their quotas within a few thousand tries; the rare ones (a double push or castling that mates)
     // need millions: keep trying for a fixed budget, the common classes being capped, and let the rare ones overshoot a little
     let min_tries: u64 = 3_000_000;
-    let hard_cap = events + events / 3;
+    let hard_cap = 2 * events;
     while (n < events || tries < min_tries) && n < hard_cap && tries < 40_000_000 {
         tries += 1;
         let mut sq = [b'.'; 64];
@@ -2220,10 +2220,12 @@ fn mine_chunk(rng: &mut Rng, events: usize, out: &mut dyn Write) {
                 }
             }
         }
-        if n >= events {
-            continue;       // only the rare special-move classes are still looked for
-        }
         let nmoves = MoveGen::new_legal(&b).len();
+        // once the chunk is full only the rare classes are still looked for: the special-move parents above, and below the
+        // positions with en-passant state or a pinned man in which the side to move has NO move or is in check
+        if n >= events && !((b.en_passant().is_some() || (*b.pinned() & *b.color_combined(b.side_to_move())) != EMPTY) && (nmoves == 0 || *b.checkers() != EMPTY)) {
+            continue;
+        }
         // attackers of the king of the side to move, counted through the attack lookups (not through checkers()): positions
         // SET UP in a double check are kept whatever the library believes about them
         let attackers = {
